@@ -502,7 +502,7 @@ func (m *monitor) makeFixture() error {
 		return nil
 	})
 	os.RemoveAll(m.fix)
-	for _, d := range []string{"", "d", "certs"} {
+	for _, d := range []string{"", "d", "certs", "certs2"} {
 		if err := os.MkdirAll(filepath.Join(m.fix, d), 0o755); err != nil {
 			return err
 		}
@@ -521,6 +521,16 @@ func (m *monitor) makeFixture() error {
 	kb, _ := os.ReadFile(kp)
 	os.Chmod(kp, 0o644)
 	w("certs/ok.pem", append(cb, kb...))
+	// a directory of damaged bundles: truncated after the EC parameters, parameters
+	// only, certificate only, key only, a block cut in the middle, an empty file
+	ecParams := []byte("-----BEGIN EC PARAMETERS-----\nBggqhkjOPQMBBw==\n-----END EC PARAMETERS-----\n")
+	w("certs2/a-cert-then-params.pem", append(append([]byte{}, cb...), ecParams...))
+	w("certs2/b-params-only.pem", ecParams)
+	w("certs2/c-cert-only.pem", cb)
+	w("certs2/d-key-only.pem", kb)
+	w("certs2/e-cut.pem", cb[:len(cb)/2])
+	w("certs2/f-empty.pem", nil)
+	w("certs2/g-params-then-garbage.pem", append(append([]byte{}, ecParams...), []byte("-----BEGIN GARBAGE-----\nAAAA\n-----END GARBAGE-----\n")...))
 	// world-readable, not writable by the unprivileged uid of the children
 	return filepath.Walk(m.fix, func(p string, info os.FileInfo, err error) error {
 		if err != nil {
